@@ -905,9 +905,13 @@ func (tx *Transaction) ProcessRequestHeaders() *types.Interruption {
 
 func setAndReturnBodyLimitInterruption(tx *Transaction, status int) (*types.Interruption, int, error) {
 	tx.debugLogger.Warn().Msg("Disrupting transaction with body size above the configured limit (Action Reject)")
-	tx.interruption = &types.Interruption{
-		Status: status,
-		Action: "deny",
+	// An interruption raised earlier (by a rule or by a previous over-limit write) is final,
+	// and DetectionOnly must not interrupt: go through Interrupt like every disruptive action.
+	if tx.interruption == nil {
+		tx.Interrupt(&types.Interruption{
+			Status: status,
+			Action: "deny",
+		})
 	}
 	return tx.interruption, 0, nil
 }
